@@ -70,6 +70,7 @@ type lifeScenario struct {
 	WriteDelay     time.Duration // simulated duration of every server-side write
 	DoubleCloseErr bool          // server-side connections fail a second Close, as real sockets do
 	SecondServe    string        // "" | "cancel" | "shutdown": after a serving that ended by context cancellation the same Server value serves again on a new listener, and that serving is ended this way
+	LongSession    bool          // the lifecycle action comes only after 26-30 simulated seconds: connections that stay silent are closed by the server's idle limit first
 	Race           bool
 }
 
@@ -213,6 +214,14 @@ func genC17(t *Tape) *lifeScenario {
 	sc.TriggerDelay = []time.Duration{0, 0, 200 * time.Microsecond, 3 * time.Millisecond}[t.Choose(4)]
 	sc.WriteDelay = []time.Duration{0, 0, time.Millisecond, 15 * time.Millisecond}[t.Choose(4)]
 	sc.DoubleCloseErr = t.Choose(2) == 1
+	if t.Chance(1, 40) {
+		sc.LongSession = true
+		sc.Trigger, sc.TriggerDelay = "time", 0
+		sc.ActionAt = time.Duration(26000+t.Choose(4000)) * time.Millisecond
+		if len(sc.Clients) > 0 {
+			sc.Clients[len(sc.Clients)-1].Delay = time.Duration(25200+t.Choose(1500)) * time.Millisecond // arrives when the silent ones have just been dropped
+		}
+	}
 	if sc.Action == "cancel" && sc.Second == "" && t.Choose(3) == 0 {
 		sc.SecondServe = []string{"cancel", "shutdown"}[t.Choose(2)]
 	}
@@ -291,6 +300,9 @@ func runLife(rc *RunCtx, sc *lifeScenario, seed uint64) *lifeOutcome {
 	s := NewSim(rc.Sched)
 	s.Tracing = rc.Tracing
 	s.Free = sc.Race
+	if sc.LongSession {
+		s.MaxSteps = 600000
+	}
 	out := &lifeOutcome{CloseCB: map[string]int{}, CloseCBFlag: map[string]bool{}, HandlerStart: map[uint16]int{}, HandlerEnd: map[uint16]int{}, Aborted: map[uint16]bool{},
 		ClientSaw: make([]string, len(sc.Clients)), ClientRecv: make([][]byte, len(sc.Clients)), ClientConn: make([]*Conn, len(sc.Clients)),
 		IdleAtShutdown: make([]bool, len(sc.Clients))}
@@ -690,7 +702,11 @@ func runLife(rc *RunCtx, sc *lifeScenario, seed uint64) *lifeOutcome {
 					return
 				case "hold":
 					// stay connected and idle until the server closes the connection (or 3 simulated seconds pass)
-					read(3*time.Second, 0)
+					if sc.LongSession {
+						read(31*time.Second, 0)
+					} else {
+						read(3*time.Second, 0)
+					}
 				}
 			}
 		})
